@@ -810,6 +810,10 @@ impl<'i> Interp<'i> {
             if *n >= 1e9 && (n.fract() == 0.0 || *n == f64::INFINITY) {
                 return Ok(V::Mys);
             }
+            // a zero-based sequence has no element -1 (or NaN): missing, like any other missing element
+            if n.is_nan() || *n < 0.0 {
+                return Ok(V::Mys);
+            }
         }
         match container {
             V::Str(s) => match key {
@@ -1102,6 +1106,12 @@ impl<'i> Interp<'i> {
     }
 
     fn index_kind_for_write(k: &V) -> X<IndexKind> {
+        if let V::Num(n) = k {
+            if n.is_nan() || *n < 0.0 {
+                // there is no element -1 to write to (and writing must not land on element 0)
+                return err("invalid_key");
+            }
+        }
         Self::index_kind(k)
     }
 
@@ -1308,8 +1318,8 @@ impl<'i> Interp<'i> {
                     }
                     return f;
                 } else {
-                    // no block ran: whether the referent survives is open
-                    self.pron = Pron::Unspec;
+                    // no block ran, so none has ended: the referent is still the variable named last (in the
+                    // condition, if it named one)
                 }
             }
             Stmt::While { cond, body } => return self.loop_stmt(cond, body, false),
